@@ -28,6 +28,7 @@ import Rscp.Tie.Client
 #print axioms Rscp.Tie.JsonIn.shape_rscp_Message_UnmarshalJSONValue
 #print axioms Rscp.Tie.JsonIn.shape_rscp_DataType_newNumber
 #print axioms Rscp.Tie.JsonIn.shape_rscp_DataType_new
+#print axioms Rscp.Tie.JsonIn.shape_rscp_var_newMap
 #print axioms Rscp.Tie.JsonIn.shape_rscp_Tag_UnmarshalJSON
 #print axioms Rscp.Tie.JsonIn.shape_rscp_DataType_UnmarshalJSON
 #print axioms Rscp.Tie.JsonIn.shape_rscp_Message_validate
